@@ -88,3 +88,25 @@ Section MapSeq.
     rewrite last_map, Tinj. reflexivity.
   Qed.
 End MapSeq.
+
+(* ---- flattening commutes with coordinate maps ---- *)
+Lemma polys_of_map : forall T g, polys_of (map_geom T g) = map (map_poly T) (polys_of g).
+Proof.
+  intros T g. induction g using geom_ind'; cbn [map_geom polys_of map]; try reflexivity.
+  induction gs as [|h gs IH]; [reflexivity|]. inversion H as [|? ? Hh Hgs]; subst.
+  cbn [map flat_map]. rewrite Hh, (IH Hgs), map_app. reflexivity.
+Qed.
+Lemma lines_of_map : forall T g, lines_of (map_geom T g) = map (map T) (lines_of g).
+Proof.
+  intros T g. induction g using geom_ind'; cbn [map_geom lines_of map]; try reflexivity.
+  induction gs as [|h gs IH]; [reflexivity|]. inversion H as [|? ? Hh Hgs]; subst.
+  cbn [map flat_map]. rewrite Hh, (IH Hgs), map_app. reflexivity.
+Qed.
+Lemma points_of_map : forall T g, points_of (map_geom T g) = map T (points_of g).
+Proof.
+  intros T g. induction g using geom_ind'; cbn [map_geom points_of map]; try reflexivity.
+  - destruct p; reflexivity.
+  - induction ps as [|[p|] ps IH]; cbn [map flat_map opt_list option_map app]; [reflexivity | rewrite IH; reflexivity | exact IH].
+  - induction gs as [|h gs IH]; [reflexivity|]. inversion H as [|? ? Hh Hgs]; subst.
+    cbn [map flat_map]. rewrite Hh, (IH Hgs), map_app. reflexivity.
+Qed.
